@@ -143,6 +143,8 @@ fn schedule_pending(
                     false
                 };
                 let latency = fs.calculate_latency(cache_hit);
+                #[cfg(turmoil_verif)]
+                crate::verif::log_latency(entry.user_data, latency);
                 let ring = iou.rings.get_mut(&ring_fd).expect("ring vanished");
                 ring.schedule(
                     entry.user_data,
@@ -174,6 +176,8 @@ fn schedule_pending(
                     }
                 }
                 let latency = fs.calculate_latency(false);
+                #[cfg(turmoil_verif)]
+                crate::verif::log_latency(entry.user_data, latency);
                 let ring = iou.rings.get_mut(&ring_fd).expect("ring vanished");
                 ring.schedule(
                     entry.user_data,
@@ -188,6 +192,8 @@ fn schedule_pending(
             }
             OpKind::Fsync { fd } => {
                 let latency = fs.calculate_latency(false);
+                #[cfg(turmoil_verif)]
+                crate::verif::log_latency(entry.user_data, latency);
                 let ring = iou.rings.get_mut(&ring_fd).expect("ring vanished");
                 ring.schedule(entry.user_data, now + latency, PendingApply::Fsync { fd });
             }
